@@ -13,15 +13,18 @@ scenario = <v> <pct> <from> <group> <order> <corder> <scal> <prefix> n <column>^
 order  = default ORDER BY of the SqlMethod;  corder = `_order_by` of the call: ~ | V value | S order
 scal   = `_as_scalars` of the call: ~ | 0 | 1
 
-value  = N | I<int> | T<cps> | X<bytes>
+value  = N | I<int> | T<cps> | X<bytes> | D<cls>:<cps>
+         (D: an object the driver adapts itself - cls 0 datetime, 1 date, 2 object with __conform__, 3 object of a
+         class with a registered adapter; cps: the text the driver writes for it)
 arg    = S value | L n value^n | Z n value^n
 cond   = T <field> <op> arg | P <field> arg | A k <field> arg | B k | O n cond^n m (<name> arg)^m | R <text>
          (k: which non-str operation / malformed object the adapter builds; no meaning in the model)
 call   = n (~ | cond)^n m (<name> arg)^m
 group  = ~ | <cps>
-order  = ~ | k (<col> 0|1)^k
-table  = k <static text>^k nrows value^((n+1+k)*nrows)   (first column: the record id; last k: the value SQLite
-         computes for each static condition text on that row — supplied by the harness)
+order  = ~ | k (<key> 0|1)^k                (key: a column or any other SQL expression; 1 = DESC)
+table  = k <text>^k nrows value^((n+1+k)*nrows)   (first column: the record id; last k: the value SQLite
+         computes on that row for each static condition text and for each ORDER BY key that is not a column —
+         supplied by the harness)
 method = list | one | one_or_none | tone_or_none
 v      = how the adapter spells the call (tuples or lists, `all` or `list`, `_as_scalars`,
          default or per-call ORDER BY, `SqlMethodT`): no meaning in the model
@@ -45,6 +48,13 @@ def pValue : P Value
     | 'I' :: r => (parseInt (String.ofList r)).map (fun i => (.int i, ts))
     | 'T' :: r => (parseCps (String.ofList r)).map (fun s => (.text s, ts))
     | 'X' :: r => (parseNatList (String.ofList r)).map (fun b => (.blob b, ts))
+    | 'D' :: r =>
+      match (String.ofList r).splitOn ":" with
+      | [k, img] =>
+        match k.toNat?, parseCps img with
+        | some k, some s => some (.obj k s, ts)
+        | _, _ => none
+      | _ => none
     | _ => none
   | [] => none
 
@@ -203,6 +213,7 @@ def showValue : Value → String
   | .int i => "I" ++ toString i
   | .text s => "T" ++ showCps s
   | .blob b => "X" ++ showNatList b
+  | .obj k s => "D" ++ toString k ++ ":" ++ showCps s
 
 def showFail (f : Fail) : String := "err " ++ f.name
 
